@@ -1166,3 +1166,19 @@ pub fn run_c17(r: &Runner) {
         check_c17(r, ctx, l, &rec)
     });
 }
+
+pub fn run_c04_all(r: &Runner) {
+    super::p_compile::run(r);
+    if r.stopped() {
+        return;
+    }
+    run_c04(r);
+}
+
+pub fn check_c04_any(r: &Runner, ctx: &mut Ctx, l: &mut Local, rec: &CaseRec) -> Result<(), Violation> {
+    if rec.sub == "compile" {
+        super::p_compile::check(r, ctx, l, rec)
+    } else {
+        check_c04(r, ctx, l, rec)
+    }
+}
